@@ -183,7 +183,12 @@ func (m *Machine) intrinsic(fn *ssa.Function, args []Val, caller *frame) handler
 	case "vReads":
 		return func() Val { return bv64(m.reads) }
 	case "vTapeLen":
-		return func() Val { return bv64(len(m.tape)) }
+		return func() Val {
+			if m.rewound {
+				return bv64(m.tapePos)
+			}
+			return bv64(len(m.tape))
+		}
 	case "vTapeByte":
 		return func() Val {
 			i := argInt(args[0])
@@ -275,6 +280,8 @@ func (m *Machine) intrinsic(fn *ssa.Function, args []Val, caller *frame) handler
 		// structural identity of two symbolic results: used for "same value for
 		// every input" claims that need no solver call when the terms coincide
 		return func() Val { return valEq(args[0].(Iface).V, args[1].(Iface).V) }
+	case "vTapeRewind":
+		return func() Val { m.tapePos = 0; m.rewound = true; return nil }
 	case "vOr":
 		return func() Val { return Or(args[0].(*Term), args[1].(*Term)) }
 	case "vAnd":
